@@ -151,7 +151,7 @@ def check(case, ctx):
     if case.get('intern', True):
         value, n_interned = proj.intern_leaves(value, m)
         if n_interned:
-            ctx.count('date_or_path_leaf_object_used_twice')
+            ctx.count('date_path_or_stringlike_leaf_object_used_twice')
     collide = bool(case.get('collide')) and collide_extras(value, m)
     if collide:
         # an object built in Python whose extra attributes contain a key that is
